@@ -451,13 +451,13 @@ package proto
 //@   invariant c.kv != nil && lcKV(c)
 //@   invariant lcDenotes(c, rangeindex + 1)
 
-//@ contract (c *ColLowCardinality) Reset() props(C16)
+//@ contract (c *ColLowCardinality) Reset() props(C16,C01)
 //@   requires c != nil
 //@   modifies c.keys, contents(c.kv), c.keys8, c.keys16, c.keys32, c.keys64, c.Values, c.index.nrows
 //@   ensures len(c.Values) == 0 && len(c.keys) == 0 && len(c.keys8) == 0 && len(c.keys16) == 0 && len(c.keys32) == 0 && len(c.keys64) == 0 && c.index.nrows == 0 {empty-after-reset}
 //@   ensures forall v:U_T :: !has(c.kv, v) {dictionary-map-emptied}
 
-//@ contract (c *ColLowCardinality) Append(v) props(C16)
+//@ contract (c *ColLowCardinality) Append(v) props(C16,C01)
 //@   requires c != nil
 //@   modifies c.Values
 //@   ensures len(c.Values) == old(len(c.Values)) + 1 && c.Values[old(len(c.Values))] == v {appends-one}
@@ -506,7 +506,7 @@ package proto
 //@ contract (e *ColEnum) Rows() (n) props(C01,C06,C16)
 //@   requires e != nil
 //@   ensures n == len(e.Values)
-//@ contract (e *ColEnum) Append(v) props(C16)
+//@ contract (e *ColEnum) Append(v) props(C16,C01)
 //@   requires e != nil
 //@   modifies e.Values
 //@   ensures len(e.Values) == old(len(e.Values)) + 1 {appends-one}
@@ -520,18 +520,34 @@ package proto
 //@   requires b != nil
 //@   ensures r == (b.Columns == 0 && b.Rows == 0)
 
-//@ contract (b *Block) DecodeRawBlock(r, version, target) (err) props(C01,C06,C07,C08)
+//@ -- The column headers of a block that is decoded without a target (only possible for a block
+//@ -- without rows): per column a name string, a type string and - from revision 54454 on - one
+//@ -- custom-serialization flag byte.  hdrsEnd(s, p, flag, k) is the stream position after k such
+//@ -- headers starting at p (independent layout: literal threshold, primitive kinds).
+//@ spec func strEndAt(s Bytes, p Int) Int = p + uvlen(s, p) + i64(uvval(s, p))
+//@ spec func colHdrEnd(s Bytes, p Int, flag Bool) Int = strEndAt(s, strEndAt(s, p)) + ite(flag, 1, 0)
+//@ spec func hdrsEnd(s Bytes, p Int, flag Bool, k Int) Int
+//@ spec func after2uv(s Bytes, p Int) Int = p + uvlen(s, p) + uvlen(s, p + uvlen(s, p))
+//@ axiom hdrsEnd_zero when hdrsEnd: forall s:Bytes, p, flag:Bool :: hdrsEnd(s, p, flag, 0) == p
+//@ axiom hdrsEnd_step when hdrsEnd: forall s:Bytes, p, flag:Bool, k, k2 :: trigger(hdrsEnd(s, p, flag, k), hdrsEnd(s, p, flag, k2), 0 <= k && k2 == k + 1 ==> hdrsEnd(s, p, flag, k2) == colHdrEnd(s, hdrsEnd(s, p, flag, k), flag))
+//@ contract (b *Block) DecodeRawBlock(r, version, target) (err) props(C01,C06,C07,C08,C17,C03)
 //@   requires b != nil && r != nil
 //@   modifies b.Columns, b.Rows, all(target), r.pos, r.failed, r.b.Buf
+//@   let p1 = old(r.pos) + uvlen(r.in, old(r.pos))
+//@   let p2 = after2uv(r.in, old(r.pos))
 //@   ensures err == nil ==> 0 <= b.Columns && b.Columns <= maxColumnsInBlock && 0 <= b.Rows && b.Rows <= maxRowsInBLock [C06] {counts-within-caps}
 //@   ensures err == nil && target == nil ==> b.Rows == 0 [C06,C18] {rows-need-a-target}
 //@   ensures err == nil ==> r.failed == old(r.failed) [C07]
 //@   ensures old(r.pos) <= r.pos && r.pos <= r.end [C06,C07]
+//@   ensures err == nil ==> b.Columns == i64(uvval(r.in, old(r.pos))) && b.Rows == i64(uvval(r.in, p1)) [C17] {counts-are-the-two-leading-varints}
+//@   ensures err == nil && entry(target) == nil && !(b.Columns == 0 && b.Rows == 0) ==> r.pos == hdrsEnd(r.in, p2, version >= 54454, b.Columns) [C17] {a-block-skipped-without-target-consumes-exactly-its-column-headers}
+//@   ensures err == nil && b.Columns == 0 && b.Rows == 0 ==> r.pos == p2 [C17] {the-end-marker-is-just-the-two-counts}
 //@ loop 0 (i)
 //@   modifies r.pos, r.failed, r.b.Buf
 //@   invariant 0 <= i && r.failed == old(r.failed) && old(r.pos) <= r.pos && r.pos <= r.end
+//@   invariant i <= b.Columns && r.pos == hdrsEnd(r.in, after2uv(r.in, old(r.pos)), version >= 54454, i) [C17]
 
-//@ contract (b *Block) DecodeBlock(r, version, target) (err) props(C01,C06,C07,C08)
+//@ contract (b *Block) DecodeBlock(r, version, target) (err) props(C01,C06,C07,C08,C03)
 //@   requires b != nil && r != nil
 //@   modifies b.Info, b.Columns, b.Rows, all(target), r.pos, r.failed, r.b.Buf
 //@   ensures err == nil ==> 0 <= b.Columns && b.Columns <= maxColumnsInBlock && 0 <= b.Rows && b.Rows <= maxRowsInBLock [C06] {counts-within-caps}
